@@ -79,7 +79,7 @@ package main
 //@ func RedactMongoLog
 //@   safety C07
 //@   props C01 C04 C12 C13 C15 C06
-//@   assigns GoMaps, Arr:Val, Mem:OMap, decUseNumber
+//@   assigns GoMaps, Arr:Val, Mem:OMap, decUseNumber, decFailed
 //@   allocs Arr:Int, Arr:Slice, Mem:Str, Arr:Str
 //@   local c := mkCfg(redactedString, redactNumbers, redactBooleans, shouldEncrypt && encryptionKey != nil, mkbytes(elems(encryptionKey), off(encryptionKey), len(encryptionKey)), redactedFieldsRegexp, emailRegex, redactNamespaces)
 //@   snapshot_after UnmarshalOrdered#1 H0:[Int]OMap := comp("Mem:OMap")
@@ -140,7 +140,7 @@ package main
 //@ func processMongoLogStream
 //@   props C08 C06 C02 C01
 //@   safety C07
-//@   assigns GoMaps, wfailOn, scanErr, outN, stderrN, scannedN, decUseNumber, Arr:Val, Mem:OMap, unflushed, bufDirty
+//@   assigns GoMaps, wfailOn, scanErr, outN, stderrN, scannedN, decUseNumber, decFailed, Arr:Val, Mem:OMap, unflushed, bufDirty
 //@   allocs Arr:Str
 //@   requires: !wfailOn[outWriter] && !scanErr
 //@   loop 1 invariant io-ok {C08}: !wfailOn[outWriter] && !scanErr
@@ -162,7 +162,7 @@ package main
 //@ func ProcessMongoLogFile
 //@   props C08
 //@   safety C07
-//@   assigns GoMaps, wfailOn, scanErr, openFail, outN, stderrN, scannedN, envOps, decUseNumber, Arr:Val, Mem:OMap, unflushed, bufDirty
+//@   assigns GoMaps, wfailOn, scanErr, openFail, outN, stderrN, scannedN, envOps, decUseNumber, decFailed, Arr:Val, Mem:OMap, unflushed, bufDirty
 //@   allocs Arr:Str
 //@   requires: !wfailOn[outWriter] && !scanErr && !openFail && fileReader != nil
 //@   requires key-in-use-is-the-persisted-one {C11}: implies(shouldEncrypt && encryptionKey != nil, havePersisted && persistedKey == mkbytes(elems(encryptionKey), off(encryptionKey), len(encryptionKey)))
@@ -176,7 +176,7 @@ package main
 //@ func ProcessMongoLogFileFromReader
 //@   props C08
 //@   safety C07
-//@   assigns GoMaps, wfailOn, scanErr, outN, stderrN, scannedN, envOps, decUseNumber, Arr:Val, Mem:OMap, unflushed, bufDirty
+//@   assigns GoMaps, wfailOn, scanErr, outN, stderrN, scannedN, envOps, decUseNumber, decFailed, Arr:Val, Mem:OMap, unflushed, bufDirty
 //@   allocs Arr:Str
 //@   requires: !wfailOn[outWriter] && !scanErr
 //@   requires key-in-use-is-the-persisted-one {C11}: implies(shouldEncrypt && encryptionKey != nil, havePersisted && persistedKey == mkbytes(elems(encryptionKey), off(encryptionKey), len(encryptionKey)))
@@ -490,17 +490,24 @@ package main
 
 //@ func parseValue
 //@   safety C07
-//@   assigns nothing
+//@   props C06 C08 C03
+//@   assigns decFailed
 //@   allocs Mem:OMap, Arr:Val
 //@   requires decoder: dec != nil
 //@   assume_after (*encoding/json.Decoder).Token#2 A-JSON-key-token-is-a-string: result1 != nil || isStr(result0)
 //@   loop 1 invariant frame: unchangedBelow("Mem:OMap") && unchangedBelow("Arr:Val") && m > old(heapTop) && m <= heapTop && !isTable(m)
 //@   loop 2 invariant frame: unchangedBelow("Mem:OMap") && unchangedBelow("Arr:Val") && (base(arr) == 0 || base(arr) > old(heapTop))
 //@   ensures fresh-map: implies(isMap(result0), mapOf(result0) > old(heapTop) && mapOf(result0) <= heapTop && !isTable(mapOf(result0)))
+//@   requires no-error-so-far: !decFailed[dec]
+//@   loop 1 invariant no-error-so-far {C06,C08,C03}: !decFailed[dec] && decFailed == store(old(decFailed), dec, decFailed[dec])
+//@   loop 2 invariant no-error-so-far {C06,C08,C03}: !decFailed[dec] && decFailed == store(old(decFailed), dec, decFailed[dec])
+//@   ensures a-value-is-returned-only-if-every-token-was-read-without-error {C06,C08,C03}: implies(result1 == nil, !decFailed[dec])
+//@   ensures only-this-decoder: decFailed == store(old(decFailed), dec, decFailed[dec])
 
 //@ func UnmarshalOrdered
 //@   safety C07
-//@   assigns decUseNumber
+//@   props C06 C08 C03
+//@   assigns decUseNumber, decFailed
 //@   allocs Mem:OMap, Arr:Val, Arr:Int
 //@   ensures object-or-error: (result0 == nil) == (result1 != nil)
 //@   ensures fresh-map: implies(result1 == nil, result0 > old(heapTop) && result0 <= heapTop && !isTable(result0))
